@@ -66,6 +66,11 @@ def boot(import_all=True):
     if _BOOTED:
         return
     _BOOTED = True
+    # The interpreter asks the thread that holds the GIL to give it up after this interval of real time. With the default of
+    # 5 ms, *when* a freshly started (or finishing) simulated thread and the thread that started it alternate depends on the
+    # machine load, and so do the allocation order and the addresses of what they allocate. With an interval nobody reaches,
+    # the GIL changes hands only where a thread blocks - baton, lock, join - which are all decided by the simulator.
+    sys.setswitchinterval(3600.0)
     if REPO not in sys.path:
         sys.path.insert(0, REPO)
     # Pre-import the stdlib modules beartype pulls in lazily, *before* the lock
